@@ -1,1 +1,69 @@
+import Gopki.Lemmas.DerLemmas
+import Gopki.Lemmas.IntLemmas
 import Gopki.Model.Pkcs8
+/-! # C17 — private keys survive PKCS#8/PEM write and read, and interoperate
+
+The container is DER (`X509.decodeDer_enc` / `decodeDer_sound` apply to it as to certificates); the
+theorems here are about what is specific to keys: the fixed-width scalar, the curve table, and the
+range check.  Curve arithmetic and RSA validation are checked by the harness (partial). -/
+namespace C17
+open Der Pkcs8
+
+/-- `FillBytes`: exactly `w` octets for every scalar below 256^w -/
+theorem C17_scalar_width (w d : Nat) (h : d < 256 ^ w) : (natBEFixed w d).length = w := by
+  have := natBE_length_le w d h
+  simp only [natBEFixed, List.length_append, List.length_replicate]
+  omega
+
+theorem beNat_replicate_zero (k : Nat) (bs : List UInt8) : beNat (List.replicate k 0 ++ bs) = beNat bs := by
+  induction k with
+  | zero => simp
+  | succ k ih =>
+    rw [List.replicate_succ, List.cons_append, beNat_cons, ih]
+    simp
+
+/-- the fixed-width scalar reads back as the same number, for every width and scalar:
+    leading zero octets — as many as the width demands — do not change it -/
+theorem C17_scalar_roundtrip (w d : Nat) : beNat (natBEFixed w d) = d := by
+  unfold natBEFixed
+  rw [beNat_replicate_zero, beNat_natBE]
+
+/-- whatever `parseECPrivateKey` accepts is a scalar in 1 … n-1 on a known curve (scalar 0 and scalars ≥ n
+    are rejected), for every input byte string -/
+theorem C17_reject_out_of_range (outer : Option Oid) (der : Bytes) (c : Curve) (d : Nat)
+    (h : parseEcInner outer der = .ok (c, d)) : 0 < d ∧ d < c.order ∧ c ∈ curves := by
+  unfold parseEcInner at h
+  split at h
+  · simp at h
+  · split at h
+    · simp at h
+    · rename_i curve hc
+      split at h
+      · simp at h
+      · rename_i hrange
+        split at h
+        · simp at h
+        · simp only [Except.ok.injEq, Prod.mk.injEq] at h
+          obtain ⟨h1, h2⟩ := h
+          subst h1; subst h2
+          simp only [Bool.or_eq_true, beq_iff_eq, decide_eq_true_eq, not_or, Nat.not_le] at hrange
+          refine ⟨Nat.pos_of_ne_zero hrange.1, hrange.2, ?_⟩
+          unfold namedCurveFromOID at hc
+          exact List.mem_of_find?_eq_some hc
+
+set_option maxRecDepth 8000 in
+/-- the curve table: ten curves, OIDs pairwise distinct, each OID found again by `namedCurveFromOID`,
+    each OID read back from its DER content -/
+theorem C17_curve_table :
+    curves.length = 10 ∧ (curves.map (·.oid)).Nodup ∧
+    (∀ c ∈ curves, namedCurveFromOID c.oid = some c ∧ X509.decOid (Asn1.oidContent c.oid) = some c.oid) := by
+  decide
+
+/-- an OID that is not in the table is not a curve -/
+theorem C17_unknown_curve (o : Oid) (h : o ∉ curves.map (·.oid)) : namedCurveFromOID o = none := by
+  unfold namedCurveFromOID
+  apply List.find?_eq_none.mpr
+  intro c hc hco
+  exact h (List.mem_map.mpr ⟨c, hc, by simpa using hco⟩)
+
+end C17
